@@ -40,6 +40,7 @@ type AHeader struct {
 	RURL []int    `json:"rurl"`
 	Zlib bool     `json:"zlib"`
 	Rev  bool     `json:"rev"`
+	BH   int      `json:"bh"` // BlobHeader layout variant, see BlobHeaderVariant
 }
 
 type ABlock struct {
@@ -49,6 +50,7 @@ type ABlock struct {
 	DGran  []int64  `json:"dgran"` // literal date granularity
 	Zlib   bool     `json:"zlib"`
 	Rev    bool     `json:"rev"`
+	BH     int      `json:"bh"` // BlobHeader layout variant, see BlobHeaderVariant
 	St     []int    `json:"st"` // string table as string symbols, index 0 first
 	Groups []AGroup `json:"groups"`
 }
@@ -364,6 +366,31 @@ func scale(v []int64, m int64) []int64 {
 	return out
 }
 
+// BlobHeaderVariant: optional parts of the BlobHeader of a file block, a layout choice of the writer like the blob
+// encoding (the content of the block is the same): variant 0 nothing extra; 1 a one-byte indexdata; 2 an indexdata whose
+// bytes look like BlobHeader fields (type "abc", datasize 5); 3 a 300-byte indexdata (two-byte length); 4 unknown
+// fields (a varint field 15 and a bytes field 16) after datasize; 5 indexdata and unknown fields.
+func BlobHeaderVariant(v int) (indexdata, extra []byte) {
+	unknown := []byte{0x78, 0x2a, 0x82, 0x01, 0x03, 0x18, 0x07, 0x0a} // 15: varint 42; 16: bytes {0x18, 0x07, 0x0a}
+	switch v {
+	case 1:
+		return []byte{0x00}, nil
+	case 2:
+		return []byte{0x0a, 0x03, 'a', 'b', 'c', 0x18, 0x05}, nil
+	case 3:
+		b := make([]byte, 300)
+		for i := range b {
+			b[i] = byte(0x18 + i%7)
+		}
+		return b, nil
+	case 4:
+		return nil, unknown
+	case 5:
+		return []byte{0x18, 0x01, 0x0a, 0x00}, unknown
+	}
+	return nil, nil
+}
+
 // Render turns the abstract file into a concrete pbfw.File.
 func (p Profile) Render(f *AFile) *pbfw.File {
 	out := &pbfw.File{}
@@ -391,10 +418,12 @@ func (p Profile) Render(f *AFile) *pbfw.File {
 	if len(f.Header.RURL) > 0 {
 		h.ReplBaseURL = pbfw.Str(p.Str(f.Header.RURL[0]))
 	}
+	h.Damage.IndexData, h.Damage.BlobHeaderExtra = BlobHeaderVariant(f.Header.BH)
 	out.Header = h
 
 	for _, ab := range f.Blocks {
 		b := &pbfw.Block{Zlib: ab.Zlib, Reverse: ab.Rev}
+		b.Damage.IndexData, b.Damage.BlobHeaderExtra = BlobHeaderVariant(ab.BH)
 		b.Granularity = opt32(ab.Gran)
 		b.DateGranularity = opt32(ab.DGran)
 		if len(ab.LatOff) > 0 {
